@@ -44,6 +44,13 @@ func (ex *Exec) calleeKey(c *ssa.CallCommon) (string, *ssa.Function) {
 		f := mc.Fn.(*ssa.Function)
 		return funcKey(f), f
 	}
+	// call of a function-typed PARAMETER (callback): contract keyed "<function>#<param>", if any
+	if p, ok := c.Value.(*ssa.Parameter); ok {
+		k := funcKey(ex.fn) + "#" + p.Name()
+		if _, has := ex.P.Contracts[k]; has {
+			return k, nil
+		}
+	}
 	return "", nil
 }
 
